@@ -47,6 +47,33 @@ def ambiguous_order(children, ft):
     return len(set(c["start"] for c in sel)) != len(sel)
 
 
+def overlapping(children, ft):
+    """True when two selected children overlap (the statement's blocks / thick range are then not defined by it)."""
+    sel = select(children, ft)
+    return any(a["end"] >= b["start"] for a, b in zip(sel, sel[1:]))
+
+
+def name_relatives(children, ft):
+    """Children that are NOT of the named type(s) although their type name contains, or is contained in, a named type
+    ('coding_exon' next to 'exon'): exactly the features a selection by name must leave out."""
+    types = _types(ft)
+    return [c for c in children if c["type"] not in types and any(c["type"] in t or t in c["type"] for t in types)]
+
+
+def type_relation(block, thick):
+    """How the thick type names relate to the block type names (as sets of whole names)."""
+    b, t = set(_types(block)), set(_types(thick))
+    if not t:
+        return "absent"
+    if t == b:
+        return "equal to"
+    if t < b:
+        return "contained in"
+    if not (t & b):
+        return "disjoint from"
+    return "overlapping with"
+
+
 def bed12_expect(t, children, opts):
     """{"raises": "ValueError"} or {"fields": [12 entries]}; an entry None = the statement does not fix the field;
     a list entry = any of the alternatives."""
